@@ -30,6 +30,8 @@ type Solver struct {
 	secs   float64
 	buf    strings.Builder
 	dead   bool
+	dt     *domTracker
+	noDom  bool
 }
 
 func NewSolver(name string, timeoutMs int, logPath string) (*Solver, error) {
@@ -55,6 +57,7 @@ func NewSolver(name string, timeoutMs int, logPath string) (*Solver, error) {
 		return nil, err
 	}
 	s := &Solver{name: name, cmd: cmd, in: in, out: bufio.NewReaderSize(out, 1<<20)}
+	s.dt = newDomTracker()
 	s.defs = []map[int]bool{{}}
 	s.decls = []map[string]bool{{}}
 	if logPath != "" {
@@ -64,9 +67,11 @@ func NewSolver(name string, timeoutMs int, logPath string) (*Solver, error) {
 		}
 	}
 	if name != "cvc5" {
+		s.send("(set-option :global-decls true)")
 		s.send(fmt.Sprintf("(set-option :timeout %d)", timeoutMs))
 		s.send("(set-option :model.completion true)")
 	} else {
+		s.send("(set-option :global-declarations true)")
 		s.send("(set-logic ALL)")
 	}
 	s.flush()
@@ -104,8 +109,6 @@ func (s *Solver) Close() {
 func (s *Solver) Push() {
 	s.send("(push 1)")
 	s.level++
-	s.defs = append(s.defs, map[int]bool{})
-	s.decls = append(s.decls, map[string]bool{})
 }
 
 func (s *Solver) Pop() {
@@ -114,8 +117,7 @@ func (s *Solver) Pop() {
 	}
 	s.send("(pop 1)")
 	s.level--
-	s.defs = s.defs[:len(s.defs)-1]
-	s.decls = s.decls[:len(s.decls)-1]
+	s.dt.undoTo(s.level)
 }
 
 func (s *Solver) PopTo(level int) {
@@ -150,7 +152,7 @@ func (s *Solver) ref(t *Term) string {
 	case OpVar:
 		if !s.isDeclared(t.name) {
 			s.send(fmt.Sprintf("(declare-fun %s () %s)", smtSym(t.name), t.sortStr()))
-			s.decls[s.level][t.name] = true
+			s.decls[0][t.name] = true
 		}
 		return smtSym(t.name)
 	}
@@ -173,7 +175,7 @@ func (s *Solver) ref(t *Term) string {
 		if x.op == OpVar {
 			if !s.isDeclared(x.name) {
 				s.send(fmt.Sprintf("(declare-fun %s () %s)", smtSym(x.name), x.sortStr()))
-				s.decls[s.level][x.name] = true
+				s.decls[0][x.name] = true
 			}
 			continue
 		}
@@ -195,7 +197,7 @@ func (s *Solver) ref(t *Term) string {
 					as = append(as, a.sortStr())
 				}
 				s.send(fmt.Sprintf("(declare-fun %s (%s) %s)", smtSym(sym), strings.Join(as, " "), x.sortStr()))
-				s.decls[s.level][sym] = true
+				s.decls[0][sym] = true
 			}
 		}
 		body := x.head(func(c *Term) string {
@@ -208,12 +210,15 @@ func (s *Solver) ref(t *Term) string {
 			return "t" + strconv.Itoa(c.id)
 		})
 		s.send(fmt.Sprintf("(define-fun t%d () %s %s)", x.id, x.sortStr(), body))
-		s.defs[s.level][x.id] = true
+		s.defs[0][x.id] = true
 	}
 	return "t" + strconv.Itoa(t.id)
 }
 
 func (s *Solver) Assert(t *Term) {
+	if !s.noDom {
+		s.dt.noteAssert(t, s.level)
+	}
 	r := s.ref(t)
 	s.send("(assert " + r + ")")
 }
@@ -225,6 +230,15 @@ func (s *Solver) readLine() string {
 		panic(engineError{"solver died: " + err.Error()})
 	}
 	return strings.TrimSpace(line)
+}
+
+// Quick decides c from the exact small-symbol domains when possible
+// (1 forced true, 0 forced false, 2 both feasible, -1 ask the solver).
+func (s *Solver) Quick(c *Term) int {
+	if s.noDom {
+		return -1
+	}
+	return s.dt.quick(c)
 }
 
 // Check returns "sat", "unsat" or "unknown" (errors count as unknown).
